@@ -186,7 +186,7 @@ func c10Perms(c *ev.Ctx) {
 			}
 		}
 	}
-	for i := 0; i < c.Sz(30, 4000); i++ {
+	for i := 0; i < c.Sz(30, 16000); i++ {
 		k := []int{8, 16, 64, 128}[r.Intn(4)]
 		jobs = append(jobs, job{k, r.Perm(k), i, r.Bool()})
 	}
@@ -386,7 +386,7 @@ func c10Allocator(c *ev.Ctx) {
 			},
 			Equal: func(a, b interface{}) bool { return a.(uint64) == b.(uint64) },
 		}
-		rounds := c.Sz(60, 6000)
+		rounds := c.Sz(60, 24000)
 		for round := 0; round < rounds; round++ {
 			p := p9.VerifNewPool(100, 106)
 			var clock int64
@@ -618,7 +618,7 @@ func c10Faults(c *ev.Ctx) {
 // request-stream monitor accounts tags and fids; some binds are refused.
 func c10Churn(c *ev.Ctx) {
 	r := c.Rand("c10churn")
-	rounds := c.Sz(24, 1200)
+	rounds := c.Sz(24, 4000)
 	for round := 0; round < rounds; round++ {
 		if !c.Mine(round + 3) {
 			continue
